@@ -18,11 +18,12 @@
 (* character designates nothing (-1).                                       *)
 (*                                                                         *)
 (* Layer B.  GoodEncode: the encoder the design intends (UTF-16 units).    *)
-(*           ImplEncode: transcription of crates/isograph_lsp              *)
-(*           semantic_tokens.rs (bytes of the in-between text minus the    *)
-(*           CHARACTER index after its last newline; length = BYTES of the *)
-(*           per-line segment including its newline) - used by the model   *)
-(*           run to predict where the real server deviates.                *)
+(*           ImplEncode / ImplPos: transcription of crates/isograph_lsp    *)
+(*           semantic_tokens.rs / format.rs as repaired by                 *)
+(*           fix_c23_utf16_positions (one token per split_inclusive        *)
+(*           segment, possibly zero-width; UTF-16 arithmetic) - the model  *)
+(*           run reports (PREDICT) every document on which it deviates     *)
+(*           from layer A: none.                                           *)
 (***************************************************************************)
 EXTENDS Utf
 
@@ -105,19 +106,25 @@ ImplAllSegs(d, T, toks, k) ==
     IF k > Len(toks) THEN << >>
     ELSE ImplSegs(d, IxOfByte(T, toks[k][1]), IxOfByte(T, toks[k][1]), IxOfByte(T, toks[k][2]), toks[k][3])
          \o ImplAllSegs(d, T, toks, k + 1)
-\* delta_line_delta_start(text between boundaries p and q)
+\* delta_line_delta_start(text between boundaries p and q), repaired (fix_c23_utf16_positions):
+\* (newlines in between, UTF-16 units after the last of them)
 ImplDelta(d, T, p, q) ==
-    LET nls  == { j \in (p + 1)..q : d[j] = NL }              \* 1-based positions of newlines in between
-        last == IF nls = {} THEN 0 ELSE (CHOOSE j \in nls : \A j2 \in nls : j2 <= j) - p   \* chars().enumerate() index + 1
-    IN  << Cardinality(nls), (B8(T, q) - B8(T, p)) - last >>
+    LET nls == { j \in (p + 1)..q : d[j] = NL }
+    IN  << Cardinality(nls), IF nls = {} THEN C16(T, q) - C16(T, p) ELSE C16(T, q) >>
+\* token length, repaired: UTF-16 units of the segment without its newline
+ImplLen(d, T, a, b) == LET e == IF d[b] = NL THEN b - 1 ELSE b IN C16(T, e) - C16(T, a)
 RECURSIVE ImplEncodeSegs(_, _, _, _, _)
 ImplEncodeSegs(d, T, sg, k, prev) ==
     IF k > Len(sg) THEN << >>
     ELSE LET dl == ImplDelta(d, T, prev, sg[k][1])
-         IN << << dl[1], dl[2], B8(T, sg[k][2]) - B8(T, sg[k][1]), sg[k][3] >> >>
+         IN << << dl[1], dl[2], ImplLen(d, T, sg[k][1], sg[k][2]), sg[k][3] >> >>
             \o ImplEncodeSegs(d, T, sg, k + 1, sg[k][1])
 ImplEncode(d, T, toks) == ImplEncodeSegs(d, T, ImplAllSegs(d, T, toks, 1), 1, 0)
 
-\* char_index_to_position of format.rs: (newlines before, BYTES since the line start)
-ImplPos(T, i) == << Ln(T, i), B8(T, i) - B8(T, LineStart(T, Ln(T, i))) >>
+\* char_index_to_position of format.rs, repaired: (newlines before, UTF-16 units since the line start)
+ImplPos(T, i) == << Ln(T, i), C16(T, i) >>
+
+(* Before the repair (kept for the record, not used): delta start = BYTES of the in-between text minus the
+   CHARACTER index after its last newline; length = BYTES of the segment including its newline; position
+   column = BYTES since the line start.  The smallest document on which that deviated: e-acute followed by a. *)
 =============================================================================
